@@ -19,19 +19,19 @@ P = {
    note="Trusted base: the oracle's apply(); validated through perft totals (which exercise apply on millions of moves)."),
  "C03": dict(level="exploration", design="DESIGN.md §5 C03",
    technique="property-based black-box testing of the real binary: generated UCI sessions (position forms x go parameter classes x chains of go without a new position, a directed promotion-then-castling family) checked by the rules oracle, run under two load levels",
-   text="~4800 go commands per quick run are sent to real engine processes (16 and 48 at a time); each must produce exactly one bestmove line (fenced by isready/readyok) naming a move that is legal in the position reached by the engine's previous answers, spelled in UCI notation with the promotion letter iff it promotes.",
+   text="~11,500 go commands per quick run are sent to real engine processes (16 at a time, 48 at a time, and pinned to one core; a quarter with logging on; one go in six followed at once by `stop`; a family of `position ... moves` lines of 700-13,500 plies); each must produce exactly one bestmove line (fenced by isready/readyok) naming a move that is legal in the position reached by the engine's previous answers, spelled in UCI notation with the promotion letter iff it promotes.",
    note="Thread interleavings of the search and I/O threads are sampled by load variation, not enumerated; the schedule-independent half of the argument is C07 (every board the search can hand back at any expiry point is a legal root successor)."),
  "C08": dict(level="exploration", design="DESIGN.md §5 C08",
    technique="property-based black-box testing with generated positions (16% finished games: checkmates and stalemates) and clocks; latency oracle = the engine's own planned slice + 500 ms with serial re-measurement; responsiveness probes after the answer",
-   text="Each generated (position, go) is run in a real process: bestmove (null move when the game is over) within plan + 500 ms, then readyok within 1 s, then a fresh position + go served legally, then quit ends the process, no panic on stderr.",
-   note="A time budget miss is re-measured twice serially before it counts; a missing answer is detected after plan + 10 s. Schedules sampled; unreachable material out of scope."),
+   text="Each generated (position, go) is run in a real process, in six of ten cases after option lines (Ponder, Hash sizes, a button) fenced by isready: bestmove (null move when the game is over) within plan + 500 ms, then readyok within 1 s, then a fresh position + zero-allowance go served legally within the same bound, then quit ends the process. A second family uses legal positions with very large capture trees (up to eight queens or rooks a side) and slices of 0-130 ms.",
+   note="A time budget miss is re-measured twice serially before it counts; a missing answer is detected after plan + 10 s. Schedules sampled; material that no sequence of promotions can produce is out of scope."),
  "C16": dict(level="exploration", design="DESIGN.md §5 C16",
    technique="differential black-box testing: generated sessions of earlier traffic followed by a probe, compared with a fresh process given only the probe (zero-allowance bestmove; timed info sequences on their common prefix) and with the probe repeated",
-   text="~210 sessions per quick run with 0-25 commands of earlier traffic (positions with repetition histories, searches, ucinewgame, options, ignorable lines, also the probe's own position line used before); the probe's observable reply must equal that of a fresh engine and be repeatable.",
+   text="~860 sessions per quick run: 0-25 commands of earlier traffic (positions with repetition histories, searches, ucinewgame, options, ignorable lines, also the probe's own position line used before), games continued with the engine's own move and expected reply, and sessions with 126-515 searches of other positions between two probes of one position; the probe's observable reply must equal that of a fresh engine and be repeatable.",
    note="The timed bestmove itself is excluded (depends on where the clock cuts); info sequences are compared without the time field."),
  "C17": dict(level="exploration", design="DESIGN.md §5 C17",
    technique="property-based black-box testing of generated sessions with ignorable lines, odd whitespace, unknown go tokens and seven session endings (quit / end-of-input at different points); state-unchanged oracle via the zero-allowance answer, lifecycle oracle via observed process exit",
-   text="~250 sessions per quick run: isready always answered, zero-allowance answer unchanged by ignorable input, a go with unknown tokens still uses the planned time (independent reading of the command), and the process ends by itself within slice + 1 s after quit or after its standard input is closed (also after a blank line or an unterminated fragment).",
+   text="~600 sessions per quick run: isready always answered, zero-allowance answer unchanged by ignorable input (incl. single words of up to 64 KiB whose tail at a power-of-two offset spells a command, and lines of up to 30,000 multi-byte characters), a go with unknown tokens still uses the planned time (independent reading of the command), lines arriving while the engine is thinking (another position, junk, `stop`) are dealt with in order with exactly one legal bestmove, and the process ends by itself within slice + 1 s after quit or after its standard input is closed (also after a blank line or an unterminated fragment).",
    note="Invalid UTF-8, bare `position`, non-numeric clock values and movestogo 0 are outside the stated domain and not generated."),
  "C04": dict(level="exploration", design="DESIGN.md §5 C04",
    technique="property-based testing of generated games: the UCI text-move applier against the rules oracle, the generator chain and a print/replay round trip, after every prefix (proptest, shrinking to a minimal game)",
@@ -47,23 +47,23 @@ P = {
    note="Trusted base: oracle.man_attacks (geometry from the attacker's side). Boards are built by the engine's public from_fen, which sets the cached king squares."),
  "C14": dict(level="exploration", design="DESIGN.md §5 C14",
    technique="metamorphic property-based testing (colour mirror, side-to-move negation, irrelevance of non-placement fields, bound) with an exhaustive single-piece basis",
-   text="The evaluation is a sum over pieces blended by a phase weight, so symmetry on the complete single-piece basis at every phase weight (exhaustive, 18,400 cases) plus random whole placements up to nine queens a side decides the relations; the bound is checked on every case.",
+   text="The evaluation is a sum over pieces blended by a phase weight, so symmetry on the complete single-piece basis at every phase weight (exhaustive, 18,400 cases) plus random whole placements up to nine queens a side decides the relations; the bound is checked on every case against the mate range OBSERVED through the engine's own info printer (smallest score shown as `score mate`; far below = under half of it).",
    note="Trusted base: the oracle's mirror(); no reference evaluation is needed (relations only)."),
  "C07": dict(level="fault_enumeration", design="DESIGN.md §5 C07",
    technique="fault enumeration over the clock: a cfg-guarded virtual clock makes 'the k-th consultation expires' an input; every k up to a bound is executed for proptest-generated positions and compared metamorphically with a larger allowance (prefix law), with invariants after each run",
-   text="The fault is expiry of the allowance; its location (which node) is the quantifier. For each generated position every expiry index 0..=K (K 1500 quick / 5000 thorough, scaled down deterministically for quiescence-heavy positions) plus sampled deeper ones is executed in-process on the real search code, ~200k searches per quick run. Each run must not panic, must restore the repetition record, must hand back oracle-legal root successors, and its reported improvements and moves must be a prefix of those of the reference run with a larger allowance.",
+   text="The fault is expiry of the allowance; its location (which node) is the quantifier. For each generated position every expiry index 0..=K (K 1500 quick / 5000 thorough, scaled down deterministically for quiescence-heavy positions) plus sampled deeper ones is executed in-process on the real search code, ~590k searches per quick run (incl. long searches of 3M consultations whose repetition record must come back as given). Each run must not panic, must restore the repetition record, must hand back oracle-legal root successors, and its reported improvements and moves must be a prefix of those of the reference run with a larger allowance.",
    note="Assumes the virtual clock hook (first line of utils::out_of_time) is the only time source of the search; OS thread interleavings of the real binary are sampled by C03/C08, not enumerated. Expiry points beyond ~20k (quick) / 60k (thorough) consultations are only sampled."),
  "C10": dict(level="exploration", design="DESIGN.md §5 C10",
    technique="property-based testing with a model of the game history (multiset of oracle positions) for the repetition record, and generated repetition games searched under the virtual clock for the draw scoring; black-box differential sessions for the reset between position commands",
-   text="Generated games with 0-25 out-and-back cycles are given to the engine's position handler and the record compared with the exact multiset of positions; in the search part the side to move (often materially lost) has a move into a position seen 2-6 times and every completed depth must score >= 0.",
+   text="Generated games with 0-25 out-and-back cycles are given to the engine's position handler and the record compared with the exact multiset of positions; in the search part the side to move (often materially lost) has a move into a position seen 2-6 times and every completed depth must score >= 0; black-box: go through UCI against a direct search on the same record, and the second go of a chain (no position in between) must still know the game.",
    note="Trusted base: oracle position identity (FEN convention for the en passant target). Depths 1..4 examined."),
  "C11": dict(level="exploration", design="DESIGN.md §5 C11",
    technique="property-based testing against an independent bounded mate solver, on constructed mate / near-mate positions (incl. a dedicated knight-promotion-only mate constructor), with the move played read off at every expiry point of the virtual clock",
-   text="~7000 constructed and walked positions per quick run are classified by the solver (mate in 1, under-promotion-only mate, avoidable threat, ...); the moves the engine would play at every expiry point after iteration 1 / 2 are checked to mate / to avoid the mate, with direct re-runs; every `score mate N` claim (130k per quick run) is judged by the solver (|N| <= 3).",
-   note="Cases carry no repetition history (a draw by repetition legitimately overrides mate avoidance, C10). Mate claims with |N| > 3 or over the solver budget are counted as unjudged."),
+   text="~26,000 constructed and walked positions per quick run (incl. oracle-filtered rare geometries: a mate in one beside a cross-check mate; roots one move before a reciprocal zugzwang in which the attacker has no tempo move) are classified by the solver; the moves the engine would play at every expiry point after iteration 1 / 2 - or when it stops of its own accord - are checked to mate / to avoid the mate, with direct re-runs; every `score mate N` claim (530k per quick run) is judged by the solver (|N| <= 3, <= 5 with at most seven men).",
+   note="Clause (ii) is judged on history-free cases only (a draw by repetition legitimately overrides mate avoidance, C10). Mate claims beyond the bound or over the solver budget are counted as unjudged."),
  "C12": dict(level="exploration", design="DESIGN.md §5 C12",
    technique="differential testing against a reference model: plain fail-soft alpha-beta minimax over the engine's own generator and evaluation with its leaf rules, the model itself cross-checked against unpruned minimax on every run; cases generated by proptest with repetition histories",
-   text="For ~1500 generated positions per quick run (40k thorough), with and without repetition history, the scores the engine reports for depths 1-3 and the moves it selects are compared with the exact minimax value computed by the reference.",
+   text="For ~21,000 generated positions per quick run (420k thorough), with and without repetition history, incl. promotion races, mating nets and advanced-pawn positions, the scores the engine reports for depths 1-3 and the moves it selects are compared with the exact minimax value computed by the reference.",
    note="Trusted base: the reference search (harness/src/props/searchsem.rs, 90 lines) - validated against unpruned minimax on small positions each run."),
  "C18": dict(level="exploration", design="DESIGN.md §5 C18",
    technique="property-based testing of captured search output under the virtual clock at enumerated expiry points with a strict line grammar and oracle legality of the first pv move; black-box checks of the real binary's lines in timed sessions",
@@ -75,7 +75,7 @@ P = {
    note="Known finding F6 (increment branch may exceed the remaining clock) is excluded by its exact signature and reported as KNOWN-FINDING; any other excess is a violation. Timing part samples OS schedules."),
  "C15": dict(level="exploration", design="DESIGN.md §5 C15",
    technique="property-based testing and fuzzing of the FEN loader: arbitrary and grammar-shaped strings, character-level mutation of valid FENs, round trip through an independent strict FEN reader/writer, black-box runs of the CLI front end; libFuzzer target in the thorough tier",
-   text="Totality (never panics) is checked on arbitrary unicode strings, six-field-shaped garbage and mutated valid FENs; faithfulness on every string the independent strict reader classifies as the well-formed FEN of a legal position (incl. counters up to 200 / 9000); the CLI error path is run as a real process on generated rejected strings incl. long multi-byte ones.",
+   text="Totality (never panics) is checked on arbitrary unicode strings, six-field-shaped garbage and mutated valid FENs; faithfulness on every string the independent strict reader classifies as the well-formed FEN of a legal position (incl. counters up to 200 / 9000); pairs of FENs differing in exactly one field are loaded back to back (A, B, A) in one thread; the CLI error path is run as a real process in four front-end modes on generated rejected strings incl. long multi-byte ones.",
    note="Trusted base: the strict FEN reader/writer in harness/src/oracle.rs. FENs with counters beyond 200/9000 or non-standard castling field order carry no acceptance requirement."),
  "C13": dict(level="exploration", design="DESIGN.md §5 C13",
    technique="property-based differential testing of capture-only generation along chains (tree to depth 3 plus one deep line) against the oracle's legal capturing moves",
